@@ -171,6 +171,15 @@ def run(ctx):
             ctx.count("degenerate_zero_density")
             continue
         spin = meta["spinning"] and len(meta["trees"]) >= 2
+        # partial models: a subset of the chains that is NOT a prefix of the chain list (the last chain alone, first + last), as
+        # partial_weight / fit fractions / plots of single components select them
+        n_ch = len(amp0.decay_group.chains)
+        subsets = ([[n_ch - 1]] + ([[0, n_ch - 1]] if n_ch >= 3 else [])) if n_ch >= 2 else []
+        f_sub = []
+        for sub_ in subsets:
+            amp0.decay_group.set_used_chains(sub_)
+            f_sub.append(cards.density(base, ps, **extra)[0])
+        amp0.decay_group.set_used_chains(list(range(n_ch)))
 
         def judge(name, opts):
             monitor = "strategy " + name
@@ -191,6 +200,14 @@ def run(ctx):
                     g2 = np.asarray(amp(data))
                     amp.set_params(p1)
                     g3 = np.asarray(amp(data))
+                    g_sub = []
+                    if len(amp.decay_group.chains) == n_ch:
+                        for sub_ in subsets:
+                            amp.decay_group.set_used_chains(sub_)
+                            try:
+                                g_sub.append(np.asarray(amp(data)))
+                            finally:
+                                amp.decay_group.set_used_chains(list(range(n_ch)))
             except Exception as e:
                 ctx.count("declined(raised):" + name)
                 ctx.note("strategy %s raised %r on %s" % (name, e, cards.short(card)["resonances"]))
@@ -198,6 +215,10 @@ def run(ctx):
             tol1, tol2 = tolerance(f1), tolerance(f2)
             devs = {"first call": np.abs(g1 - f1) / tol1, "second call": np.abs(g1b - f1) / tol1,
                     "after coupling change": np.abs(g2 - f2) / tol2, "after restoring couplings": np.abs(g3 - f1) / tol1}
+            for sub_, fs_, gs_ in zip(subsets, f_sub, g_sub):
+                if np.median(fs_) > 1e-20:
+                    devs["chains %s only" % sub_] = np.abs(gs_ - fs_) / tolerance(fs_)
+                    ctx.count("strategy x chain subset compared")
             worst_label, worst = max(((k, float(np.max(v[good])) if np.any(good) else 0.0) for k, v in devs.items()), key=lambda t: t[1])
             ctx.dev(monitor + " (|df|/tol)", worst, 1.0)
             ctx.check(monitor, worst <= 1.0, lambda: {"card": cards.short(card), "config": card["config"], "data_opts": opts, "param_key": [ctx.seed, i],
